@@ -5,7 +5,7 @@ PATCH="$(realpath "$1")"; PID="$2"; TIER="${3:-quick}"
 W=/tmp/mut_$$_$PID
 git -C /repo worktree add -q "$W" HEAD || exit 2
 if ! git -C "$W" apply "$PATCH"; then echo "PATCH DOES NOT APPLY"; git -C /repo worktree remove --force "$W"; exit 2; fi
-cd /verif && VERIF_REPO="$W" ./check "$PID" --tier "$TIER" > "/tmp/mut_$$_$PID.log" 2>&1
+cd "${VERIF_HOME:-/verif}" && VERIF_REPO="$W" ./check "$PID" --tier "$TIER" > "/tmp/mut_$$_$PID.log" 2>&1
 rc=$?
 grep -E "VIOLATION|KNOWN-FINDING|done:|translator failed|Coq build failed|correspondence:" "/tmp/mut_$$_$PID.log" | cut -c1-400
 echo "exit=$rc"
